@@ -11,5 +11,8 @@ func init() {
 		// WaitTimeout: real-time cases, few processes so that a loaded machine does not starve them.
 		{name: "timing", pkg: "./c16", run: "^TestWaitTimeout(Plain)?$",
 			shards: [2]int{2, 4}, checks: [2]int{60, 1500}, timeout: [2]time.Duration{24 * min, 25 * min}},
+		// signal aimed at the expiry of the timeout, in volume (a window of microseconds)
+		{name: "coincide", pkg: "./c16", run: "^TestWaitCoincide$",
+			shards: [2]int{2, 4}, checks: [2]int{8, 400}, timeout: [2]time.Duration{24 * min, 25 * min}},
 	}})
 }
